@@ -137,6 +137,40 @@ pub fn gen_case(prop: &str, seed: u64) -> Case {
             let mut g = Gen::new(&mut wrng, p);
             case.steps = g.history();
         }
+        "C04" => {
+            let mut p = Profile::base();
+            p.max_steps = 7;
+            p.w_create = 8;
+            p.w_drop = 4;
+            p.w_insert = 30;
+            p.w_delete = 16;
+            p.w_insert_select = 2;
+            p.w_select = 0;
+            p.w_advance = 14;
+            p.max_rows_per_insert = 12;
+            if krng.chance(1, 3) {
+                knobs.rowset_size = *krng.pick(&[64usize, 128, 256]);
+            }
+            let mut g = Gen::new(&mut wrng, p);
+            case.steps = g.history();
+        }
+        "C18" => {
+            let mut p = Profile::base();
+            p.max_steps = 9;
+            p.max_tables = 2;
+            p.w_create = 6;
+            p.w_drop = 0;
+            p.w_insert = 40;
+            p.w_delete = 10;
+            p.w_insert_select = 2;
+            p.w_select = 0;
+            p.w_advance = 8;
+            p.max_rows_per_insert = 30;
+            knobs.checksum = 1;
+            let mut g = Gen::new(&mut wrng, p);
+            case.steps = g.history();
+            case.params.insert("avoid".into(), avoid.on as i64);
+        }
         _ => {}
     }
     // first keys are "required by the range-filter scan rule"; only C05, whose quantifier names
